@@ -422,9 +422,9 @@ func TestC51(t *testing.T) {
 	m.Assume("TLS 1.2 capability rules used by the key-type monitor: ECDSA leaf needs an ECDHE_ECDSA suite, an ECDSA signature scheme if signature_algorithms is present, and the leaf's curve if supported_groups is present; RSA leaf needs a non-ECDSA suite")
 	c51Init()
 	px := sharedProxy(t)
-	batchTag := fmt.Sprintf("b%dq%d", m.Batch(), os.Getpid()%1000)
+	batchTag := fmt.Sprintf("b%d", m.Batch())
 
-	m.Cases("getcert", m.N(1200, 40000), func(i int64, r *rand.Rand) {
+	m.Cases("getcert", m.N(1200, 16000), func(i int64, r *rand.Rand) {
 		tag := fmt.Sprintf("s%d%s", i, batchTag)
 		base := tag + ".example.org"
 		defer px.unregister(tag)
